@@ -1553,6 +1553,12 @@ namespace cds { namespace container {
                     if ( !pOld )
                         return update_flags::failed;
 
+                    // A child could have been unlinked since the unlocked check above (it does not change
+                    // the version of pNode): a routing node must have two children, so retry and unlink pNode
+                    if ( child( pNode, left_child, memory_model::memory_order_acquire ) == nullptr
+                      || child( pNode, right_child, memory_model::memory_order_acquire ) == nullptr )
+                        return update_flags::retry;
+
                     pNode->m_pValue.store( nullptr, memory_model::memory_order_release );
                     m_stat.onMakeRoutingNode();
                 }
